@@ -51,8 +51,8 @@ def finding_pid(pid: str) -> str:
     if p.startswith("R/"):
         parts = p.split("/")
         return "/".join(parts[:3])
-    if p.startswith("G/A1/mixdt."):
-        return p.rsplit("/", 1)[0]  # both operand orders are one call site
+    if p.startswith("G/A1/") and p.count("/") >= 3:
+        return p.rsplit("/", 1)[0]  # shape / dtype / operand-order variants of one library call site
     return p
 
 
